@@ -28,7 +28,7 @@ from .. import explore, machine, observe, rebuild, spec, sweeps
 from ..indep import foreign_json, foreign_xml, json_reader, xml_reader
 from . import c02
 
-INTERACTING = [("subtype-element", "xsi-type-on-record"), ("xsi-type-on-record", "shadowed-root-prefix"), ("xsi-type-on-record", "default-ns"),
+INTERACTING = [("multi-member", "xsi-type-on-record"), ("subtype-element", "xsi-type-on-record"), ("xsi-type-on-record", "shadowed-root-prefix"), ("xsi-type-on-record", "default-ns"),
                ("subtype-element", "shadowed-root-prefix"), ("nested-xmlns", "default-ns"),
                ("record-array", "multi-member"), ("wrap-formal", "multi-member"), ("prefix-bundle-only", "default-ns")]
 PREFIXES = {"http://a/": "ex", "http://b/": "exb", "http://c/": "cc", "http://bn/": "bn", "http://a/b/": "ab"}
@@ -78,6 +78,15 @@ def composite_reference_documents():
                                                      (A + "k4", ("lit", "bonjour", P + "InternationalizedString", "fr")),
                                                      (A + "k4", ("str", "bonjour")), (A + "k5", ("lit", "v", B + "dt", None))]),
                                          ent("r2", [(A + "k", ("bool", True)), (A + "k2", ("int", 1))])), ())))
+    # memberships of one collection that all carry the same application type
+    memt = lambda c, e: (P + "Membership", None, ((P + "collection", ("qn", A + c)), (P + "entity", ("qn", A + e)), T))
+    docs.append(("composite|typed-memberships", ((ent("c1"), memt("c1", "e1"), memt("c1", "e2"), memt("c1", "e3"), mem("c2", "e4"), mem("c2", "e5")), ())))
+    # document-level names in http://b/, bundle names in http://a/ (two default namespaces can spell them)
+    entb = lambda l, attrs=(): (P + "Entity", B + l, tuple(attrs))
+    docs.append(("composite|two-default-namespaces", ((entb("top", [(B + "k", ("qn", B + "v")), (P + "type", ("qn", B + "T"))]),),
+                                                      ((A + "b1", (ent("r1", [T, (A + "k", ("qn", A + "v"))]),
+                                                                   (P + "Generation", None, ((P + "entity", ("qn", A + "r1")), (P + "activity", ("qn", A + "a")))),
+                                                                   ent("r2", [(A + "k", ("lit", "v", A + "dt", None))]))),))))
     # formal times at midnight (xsd:dateTime has a second spelling for them: the previous day, 24:00:00)
     docs.append(("composite|midnight", ((
         (P + "Activity", A + "a", ((P + "startTime", ("dt", "2012-03-02T00:00:00", None)),
